@@ -470,11 +470,27 @@ type argWalker struct {
 	rangeVars map[types.Object]bool // for _, arg := range args
 	seen      map[string]int
 	msgVars   map[types.Object]bool // locals computed from args (msg := args[2]…)
+	subs      map[types.Object]int  // operands := args[3:]  →  3 (len(operands) is len(args)-3)
 }
 
 func (w *argWalker) isArgs(e ast.Expr) bool {
 	id, ok := ast.Unparen(e).(*ast.Ident)
 	return ok && w.info.ObjectOf(id) == w.args
+}
+
+// lenOffset: e is len(args)-k for a known k ≥ 0: len(args), an alias of it, or len(s) for s := args[k:].
+func (w *argWalker) lenOffset(e ast.Expr) (int, bool) {
+	if w.lenOfArgs(e) {
+		return 0, true
+	}
+	if call, ok := ast.Unparen(e).(*ast.CallExpr); ok && isBuiltinCall(w.info, call, "len") && len(call.Args) == 1 {
+		if id, ok := ast.Unparen(call.Args[0]).(*ast.Ident); ok {
+			if k, ok := w.subs[w.info.ObjectOf(id)]; ok {
+				return k, true
+			}
+		}
+	}
+	return 0, false
 }
 
 // lenOfArgs: e is len(args) or an alias variable.
@@ -491,6 +507,10 @@ func (w *argWalker) lenOfArgs(e ast.Expr) bool {
 
 // condBounds: given cond, return (lo if cond true, lo if cond false) improvements (−1 = none).
 func (w *argWalker) condBounds(cond ast.Expr, lo int) (int, int) {
+	if ue, ok := ast.Unparen(cond).(*ast.UnaryExpr); ok && ue.Op == token.NOT {
+		t, f := w.condBounds(ue.X, lo)
+		return f, t
+	}
 	be, ok := ast.Unparen(cond).(*ast.BinaryExpr)
 	if !ok {
 		return lo, lo
@@ -506,14 +526,15 @@ func (w *argWalker) condBounds(cond ast.Expr, lo int) (int, int) {
 		t2, _ := w.condBounds(be.Y, max(lo, t1))
 		return max(t1, t2), lo
 	}
-	if !w.lenOfArgs(be.X) {
+	off, isLen := w.lenOffset(be.X)
+	if !isLen {
 		return lo, lo
 	}
 	k, ok := constInt(w.info, be.Y)
 	if !ok {
 		return lo, lo
 	}
-	n := int(k)
+	n := int(k) + off // len(args[off:]) ⋈ k  ⟺  len(args) ⋈ k+off, given len(args) ≥ off, which the slicing itself needs
 	switch be.Op {
 	case token.LSS: // len < n : false ⇒ len >= n
 		return lo, max(lo, n)
@@ -618,6 +639,18 @@ func (w *argWalker) stmt(st ast.Stmt, lo int) int {
 				w.msgVars[w.info.ObjectOf(id)] = true
 			}
 		}
+		if len(x.Lhs) == 1 && len(x.Rhs) == 1 {
+			if se, ok := ast.Unparen(x.Rhs[0]).(*ast.SliceExpr); ok && w.isArgs(se.X) && se.Low != nil && se.High == nil {
+				if k, ok := constInt(w.info, se.Low); ok {
+					if id, ok := x.Lhs[0].(*ast.Ident); ok && x.Tok == token.DEFINE {
+						if w.subs == nil {
+							w.subs = map[types.Object]int{}
+						}
+						w.subs[w.info.ObjectOf(id)] = int(k)
+					}
+				}
+			}
+		}
 		if len(x.Lhs) == 1 && len(x.Rhs) == 1 && w.lenOfArgs(x.Rhs[0]) {
 			if id, ok := x.Lhs[0].(*ast.Ident); ok {
 				w.aliases[w.info.ObjectOf(id)] = true
@@ -641,6 +674,55 @@ func (w *argWalker) stmt(st ast.Stmt, lo int) int {
 	case *ast.SwitchStmt:
 		if x.Init != nil {
 			lo = w.stmt(x.Init, lo)
+		}
+		if x.Tag == nil {
+			// switch { case c1: … case c2: … }: an if-else chain
+			f := lo
+			after := -1
+			join := func(b int) {
+				if after < 0 || b < after {
+					after = b
+				}
+			}
+			var deflt *ast.CaseClause
+			for _, cs := range x.Body.List {
+				cc := cs.(*ast.CaseClause)
+				if cc.List == nil {
+					deflt = cc
+					continue
+				}
+				t := f
+				if len(cc.List) == 1 {
+					w.exprs(cc.List[0], f)
+					var nf int
+					t, nf = w.condBounds(cc.List[0], f)
+					end := w.block(cc.Body, t)
+					if !terminates(cc.Body) {
+						join(end)
+					}
+					f = nf
+					continue
+				}
+				for _, e := range cc.List {
+					w.exprs(e, f)
+				}
+				end := w.block(cc.Body, t)
+				if !terminates(cc.Body) {
+					join(end)
+				}
+			}
+			if deflt != nil {
+				end := w.block(deflt.Body, f)
+				if !terminates(deflt.Body) {
+					join(end)
+				}
+			} else {
+				join(f)
+			}
+			if after < 0 {
+				after = f // every clause leaves the function
+			}
+			return max(lo, after)
 		}
 		w.exprs(x.Tag, lo)
 		for _, cc := range x.Body.List {
